@@ -57,6 +57,13 @@ func (r *Run) GoBuildRepo(name, pkg string, flags ...string) string {
 	return out
 }
 
+func head(b []byte, n int) string {
+	if len(b) > n {
+		b = b[:n]
+	}
+	return string(b)
+}
+
 func tail(b []byte, n int) string {
 	if len(b) > n {
 		b = b[len(b)-n:]
@@ -204,10 +211,21 @@ func (r *Run) runSlice(spec ChildSpec, a, b uint64, id int) {
 		if res3.ok {
 			r.Inconclusive("child %s/%s died at case %d (%s) but the case alone passes", spec.Monitor, spec.Stream, killer, res2.how)
 		} else {
+			if r.CrossRoute != nil {
+				if counter, ok := r.CrossRoute(res3.stderr); ok {
+					// the death is a listed finding of ANOTHER property showing through this workload
+					r.Add(counter, 1)
+					cleanupChildFiles(base)
+					cleanupChildFiles(tb)
+					cleanupChildFiles(sb)
+					a = killer + 1
+					continue
+				}
+			}
 			sig, top := crashSignature(res3.stderr)
 			if sig == "crash:" && strings.Contains(res3.stderr, "goroutine ") && !strings.Contains(res3.stderr, "go.uber.org/thriftrw") {
 				// a Go crash dump without a single frame of the code under test: the harness itself failed
-				r.Inconclusive("harness fault in child %s/%s at case %d (%s): %s", spec.Monitor, spec.Stream, killer, top, tail([]byte(res3.stderr), 1500))
+				r.Inconclusive("harness fault in child %s/%s at case %d (%s): %s ... %s", spec.Monitor, spec.Stream, killer, top, head([]byte(res3.stderr), 2500), tail([]byte(res3.stderr), 800))
 				cleanupChildFiles(base)
 				cleanupChildFiles(tb)
 				cleanupChildFiles(sb)
